@@ -374,7 +374,9 @@ func (c *compiler) checkLR0() {
 }
 
 func (c *compiler) addShift(from, to *state) {
-	if len(from.shifts) == 0 && len(from.reduce) > 0 {
+	if len(from.reduce) > 0 && (len(from.shifts) == 0 ||
+		int(to.symbol) < c.grammar.Terminals && int(c.states[from.shifts[0]].symbol) >= c.grammar.Terminals) {
+		// The state gets its first terminal shift: its reductions have to consult the lookahead from now on.
 		from.lr0 = false
 	}
 	from.shifts = append(from.shifts, to.index)
